@@ -100,6 +100,7 @@ def main(argv=None):
     ap.add_argument("--runs", type=int)
     ap.add_argument("--seed", type=int, default=int(os.environ.get("VERIF_SEED", kernel.DEFAULT_VERIF_SEED)))
     ap.add_argument("--no-evidence", action="store_true")
+    ap.add_argument("--replay-dir", help="where to keep replay files of reported violations (default /verif/replays)")
     ap.add_argument("--verbose", action="store_true")
     a = ap.parse_args(argv)
     prop = a.property.upper()
@@ -206,7 +207,7 @@ def main(argv=None):
                 continue
             if plan.get("expect", {}).get("fingerprint") in known_seen:
                 continue
-            dest_dir = os.path.join(ROOT, "replays")
+            dest_dir = a.replay_dir or os.path.join(ROOT, "replays")
             os.makedirs(dest_dir, exist_ok=True)
             dest = os.path.join(dest_dir, os.path.basename(v["replay"]))
             shutil.copyfile(v["replay"], dest)
